@@ -28,13 +28,21 @@ deriving Repr
 def logAppend (es : List Entry) : EM Unit :=
   EM.modify fun c => { c with log := c.log ++ es }
 
-/-- the nested sends of one callback invocation, in order; each result is handed back -/
-def sendsLoop (h : Nested) (x : Ctx) (ph : Phase) (cb : CbId) : List EventId → EM Unit
-  | [] => pure ()
-  | e :: es => do
+/-- the nested sends of one callback invocation, in order; each result is handed back; the value is the result of
+the last one (`last` when there is none) -/
+def sendsLoop (h : Nested) (x : Ctx) (ph : Phase) (cb : CbId) : Option Res → List EventId → EM (Option Res)
+  | last, [] => pure last
+  | _, e :: es => do
     let r ← h e
     logAppend [.sendRet x.t.tid ph cb r]
-    sendsLoop h x ph cb es
+    sendsLoop h x ph cb (some r) es
+
+/-- what a callback invocation hands back: its own value, or — an event used as a callback — the result of the
+event it sent -/
+def retOf (m : Machine) (a : Act) (last : Option Res) : Val :=
+  match a.retSend, last with
+  | true, some r => m.resVal r
+  | _, _ => a.ret
 
 /-- one callback invocation -/
 def runCb (h : Nested) (m : Machine) (x : Ctx) (ph : Phase) (cb : CbId) : EM Val := do
@@ -43,12 +51,12 @@ def runCb (h : Nested) (m : Machine) (x : Ctx) (ph : Phase) (cb : CbId) : EM Val
   EM.modify fun c => { c with
     log := c.log ++ [.cbBegin x.t.tid ph cb c.cur x.t.event x.src x.tgt]
     nextInv := c.nextInv + 1 }
-  sendsLoop h x ph cb a.sends
+  let last ← sendsLoop h x ph cb none a.sends
   match a.raises with
   | some e => EM.throw (.user e)
   | none =>
-    logAppend [.cbEnd x.t.tid ph cb a.ret]
-    pure a.ret
+    logAppend [.cbEnd x.t.tid ph cb (retOf m a last)]
+    pure (retOf m a last)
 
 /-- `CallbacksExecutor.call`: every callback of the group, results collected -/
 def runGroup (h : Nested) (m : Machine) (x : Ctx) (ph : Phase) : List CbId → EM (List Val)
